@@ -12,7 +12,8 @@ PROPS = {
         not_decided=[],
     ),
     "C06": dict(
-        units=["A1", "A2", "A3", "A4"],
+        units=["A1", "A2", "A3", "A4", "A6", "A7"],
+        quick_skip=[r"^a7_.*avx2.*native_grid$"],
         level="proof",
         level_text="Exact rounding of multiply and faithful, saturating divide are postconditions of the real arithmetic functions, "
                    "discharged by Verus for every 8-bit and every 16-bit (colour, alpha) pair (bit-vector and integer lemmas), the "
@@ -167,5 +168,18 @@ PROPS = {
                    "harnesses run through cropped views inside larger parents.",
         level_note="Parametricity of the generic kernels is a typing argument, not a machine-checked theorem.",
         not_decided=["dynamic (Image / ImageRef / CroppedImage) vs typed entry point equality as one obligation", "sizes beyond the bounds"],
+    ),
+    "C02": dict(
+        units=["A7", "A8", "K5"],
+        quick_skip=[r"^a8_.*avx2"],
+        level="proof",
+        level_text="Scope: the alpha kernels and the precision dispatch. Every SSE4.1 / AVX2 per-vector alpha function (U8x2, U8x4, U16x2, U16x4: "
+                   "byte-identical to / within the stated bound of the portable function; F32: every lane is the IEEE quotient / product of "
+                   "its own pixel) is discharged loop-free over ALL 128/256-bit inputs, modulo the E4 instruction models; row drivers are "
+                   "checked bounded for every remainder length; constify_imm8! covers every reachable precision (mechanical).",
+        level_note="E4 instruction models are an assumed contract on the hardware, cross-checked on this host by tools/simd_model_selftest.sh at setup. "
+                   "The SIMD CONVOLUTION kernels (all pixel formats), NEON and WASM are NOT under contract: a change there is not detected.",
+        not_decided=["all SSE4.1 / AVX2 convolution kernels (horizontal u8x1..u8x4, u16x1..4, f32x1..4, i32; vertical u8 / u16 / f32)", "NEON and WASM back-ends (not compiled on this host)",
+                     "CpuExtensions::default() (CPUID)", "rows longer than 2*lanes+1 pixels"],
     ),
 }
